@@ -1,10 +1,56 @@
 import Dmn.Model.Sexp
+import Dmn.Model.BifEval
+import Dmn.Driver.Codec
 
-/-! Driver handler for C08 — not implemented yet. -/
+/-! Driver handler for C08.
+
+* `(c08 call <mode> <name> positional v…)`   → `(ok v)` | `(panic <site>)` | `(unmodelled)`
+* `(c08 call <mode> <name> named (<pname> v)…)`
+* `(c08 spec <name> v…)`                     → `(spec v)` | `(nospec)`
+* `(c08 offending)`                          → the signatures on which the tables differ
+
+`<mode>` is `checked` or `wrapping`; names travel as code-point lists. -/
 
 namespace Dmn.Driver.C08
-open Dmn
+open Dmn Dmn.Codec Dmn.Bif
 
-def handle (_args : List Sexp) : String := "(error not-implemented)"
+def showOutcome (o : Option (Outcome Value)) : String :=
+  match o with
+  | none => "(unmodelled)"
+  | some (.ok v) => toString (Sexp.list [.atom "ok", sexpOfValue v])
+  | some (.panic site) => toString (Sexp.list [.atom "panic", Sexp.ofStr site])
+  | some .diverge => "(diverge)"
+
+def modeOf : Sexp → Option IntMode
+  | .atom "checked" => some .checked
+  | .atom "wrapping" => some .wrapping
+  | _ => none
+
+def handle (args : List Sexp) : String :=
+  match args with
+  | .atom "call" :: mode :: name :: .atom "positional" :: vs =>
+    match modeOf mode, Sexp.str? name, vs.mapM valueOfSexp with
+    | some m, some name, some vs => showOutcome (callPositional (core m) name vs)
+    | _, _, _ => "(error bad-request)"
+  | .atom "call" :: mode :: name :: .atom "named" :: kvs =>
+    let kvs? := kvs.mapM (fun kv => match kv with
+      | .list [k, v] => do
+        let k ← Sexp.str? k
+        let v ← valueOfSexp v
+        pure (k, v)
+      | _ => none)
+    match modeOf mode, Sexp.str? name, kvs? with
+    | some m, some name, some kvs => showOutcome (callNamed (core m) name kvs)
+    | _, _, _ => "(error bad-request)"
+  | .atom "spec" :: name :: vs =>
+    match Sexp.str? name, vs.mapM valueOfSexp with
+    | some name, some vs =>
+      match Spec.apply name vs with
+      | some v => toString (Sexp.list [.atom "spec", sexpOfValue v])
+      | none => "(nospec)"
+    | _, _ => "(error bad-request)"
+  | [.atom "offending"] =>
+    toString (Sexp.list (.atom "offending" :: offending.map (fun (n, ps) => Sexp.list (Sexp.ofStr n :: ps.map Sexp.ofStr))))
+  | _ => "(error bad-request)"
 
 end Dmn.Driver.C08
